@@ -277,3 +277,43 @@ def run(ctx):
     pickle_state_agreement(ctx, repo.cls('extinction.extinction', 'Extinction'))
     check_ctor(ctx)
     common.check_ownership(ctx)
+
+
+FT = 'sedfitter/fit.py'
+FI = 'sedfitter/fit_info.py'
+SO = 'sedfitter/source/source.py'
+WP = 'sedfitter/write_parameters.py'
+MUST_FIRE = [
+    ('>= -> >', [(FT, "if s.n_data >= n_data_min:", "if s.n_data > n_data_min:")]),
+    ('write before keep', [(FT, "            info.keep(output_format)\n\n            fout.write(info)\n", "            fout.write(info)\n\n            info.keep(output_format)\n")]),
+    ('metadata dumped every time', [(FI, "            self._first_meta = info.meta\n        else:", "        else:")]),
+    ('reader loads two header items', [(FI, "                self._first_meta.extinction_law = pickle.load(self._handle)\n", "")]),
+    ('__getstate__ loses sc', [(FI, "            'sc': self.sc,\n", "")]),
+    ('model_fluxes dropped when requested', [(FT, "            if not output_convolved:\n                info.model_fluxes = None", "            if output_convolved:\n                info.model_fluxes = None")]),
+    ('copy removed from __iter__ (D4 reverted)', [(FI, "                info_copy = copy(info)\n                info_copy.meta = info.meta\n                yield info_copy", "                yield info")]),
+    ('second readline', [(FT, "s = Source.from_ascii(data_file.readline())", "data_file.readline()\n            s = Source.from_ascii(data_file.readline())")]),
+    ('copy without metadata', [(FI, "                info_copy.meta = info.meta\n", "")]),
+    ('eligibility on n_wav', [(FT, "if s.n_data >= n_data_min:", "if s.n_wav >= n_data_min:")]),
+    ('keep with a fixed selector', [(FT, "info.keep(output_format)", "info.keep(('N', 1))")]),
+    ('record sorted again before writing', [(FT, "            info.keep(output_format)\n", "            info.keep(output_format)\n            info.chi2 = info.chi2[::-1]\n")]),
+    ('writer never closed', [(FT, "    t.display(force=True)\n\n    fout.close()\n", "    t.display(force=True)\n")]),
+    ('list branch broken (D3 reverted)', [(FI, "            self._fits = fits\n\n            for info in self._fits[1:]:\n                if info.meta != self._fits[0].meta:\n                    raise ValueError(\"The meta property of all FitInfo instances should match\")\n",
+                                          "            for info in self._fits[1:]:\n                if info.meta != self._fits[0].meta:\n                    raise ValueError(\"The meta property of all FitInfo instances should match\")\n\n            self._fits = fits\n")]),
+    ('Source state cross-wired', [(SO, "        self.flux = d['flux']\n        self.error = d['error']", "        self.flux = d['error']\n        self.error = d['flux']")]),
+    ('metadata order differs between writer and reader', [(FI, "            pickle.dump(info.meta.model_dir, self._handle, 2)\n            pickle.dump(info.meta.filters, self._handle, 2)", "            pickle.dump(info.meta.filters, self._handle, 2)\n            pickle.dump(info.meta.model_dir, self._handle, 2)")]),
+    ('malformed lines skipped silently', [(FT, "        except EOFError:\n            break\n", "        except EOFError:\n            break\n        except ValueError:\n            continue\n")]),
+    ('keep mutates arrays in place', [(FI, "        self.chi2 = self.chi2[:n_fits]\n", "        self.chi2 = self.chi2[:n_fits]\n        self.chi2[n_fits:] = 0.\n")]),
+    ('post-processing sorts the caller record', [(WP, "        info.keep(select_format)\n", "        info.keep(select_format)\n        info.source.flux = info.source.flux * 1.\n")]) if False else
+    ('loop ends at the first ineligible source', [(FT, "            fout.write(info)\n\n            t.display()\n", "            fout.write(info)\n\n            t.display()\n\n        else:\n            break\n")]),
+]
+MUST_SILENT = [
+    ('eligibility written the other way round', [(FT, "if s.n_data >= n_data_min:", "if n_data_min <= s.n_data:")]),
+    ('early continue for ineligible sources', [(FT, "        if s.n_data >= n_data_min:\n\n            info = fitter.fit(s)\n\n            if not output_convolved:\n                info.model_fluxes = None\n\n            info.keep(output_format)\n\n            fout.write(info)\n\n            t.display()\n",
+                                                "        if s.n_data < n_data_min:\n            continue\n\n        info = fitter.fit(s)\n\n        if not output_convolved:\n            info.model_fluxes = None\n\n        info.keep(output_format)\n\n        fout.write(info)\n\n        t.display()\n")]),
+    ('deepcopy instead of copy', [(FI, "                info_copy = copy(info)\n", "                from copy import deepcopy\n                info_copy = deepcopy(info)\n")]),
+]
+
+
+def thorough(ctx):
+    from .. import selftest
+    selftest.run(ctx, MUST_FIRE, MUST_SILENT)
